@@ -422,6 +422,26 @@ func (e *Env) flagTest(cond ssa.Value, flags ssa.Value, bit int64) int {
 			return -e.flagTest(x.X, flags, bit)
 		}
 	case *ssa.BinOp:
+		// `f&bit > 0` / `f&bit <= 0` (a positive single bit: the masked value is 0 or the bit) read as != 0 / == 0
+		if (x.Op == token.GTR || x.Op == token.LEQ) && bit > 0 {
+			if c, isC := flow.ConstInt(x.Y); isC && c == 0 {
+				if and, ok := x.X.(*ssa.BinOp); ok && and.Op == token.AND {
+					k, isK := flow.ConstInt(and.Y)
+					other := and.X
+					if !isK {
+						k, isK = flow.ConstInt(and.X)
+						other = and.Y
+					}
+					if isK && k == bit && flow.StripConv(other) == flags {
+						if x.Op == token.GTR {
+							return 1
+						}
+						return -1
+					}
+				}
+			}
+			return 0
+		}
 		if x.Op != token.EQL && x.Op != token.NEQ {
 			return 0
 		}
